@@ -1,7 +1,8 @@
 #!/usr/bin/env python3
 """C10 stage "py": drive /repo/sdk/python/arvados/_ranges.py and _normalize_stream.py (no other SDK module is loaded:
 arvados.config is a stub holding EMPTY_BLOCK_LOCATOR).  Input: one JSON case per line on stdin (names hex-encoded,
-decoded as latin-1 so that one character is one byte); output: one JSON result per line."""
+decoded as latin-1 so that one character is one byte, or - case flag "utf8" - as UTF-8 text the way SDK callers pass
+unicode strings); output: one JSON result per line."""
 import binascii
 import importlib.util
 import json
@@ -21,7 +22,13 @@ pkg.config = cfg
 
 
 def load(name):
-    spec = importlib.util.spec_from_file_location("arvados." + name, os.path.join(PYDIR, name + ".py"))
+    path = os.path.join(PYDIR, name + ".py")
+    # tools/withpatch.py: run against a mutated copy of an SDK file without touching /repo
+    for kv in filter(None, os.environ.get("VERIF_PYREPLACE", "").split(",")):
+        k, v = kv.split("=", 1)
+        if k == "sdk/python/arvados/%s.py" % name:
+            path = v
+    spec = importlib.util.spec_from_file_location("arvados." + name, path)
     mod = importlib.util.module_from_spec(spec)
     sys.modules["arvados." + name] = mod
     spec.loader.exec_module(mod)
@@ -32,12 +39,16 @@ ranges = load("_ranges")
 norm = load("_normalize_stream")
 
 
+CODEC = "latin-1"
+
+
 def unhx(s):
-    return binascii.unhexlify(s).decode("latin-1")
+    return binascii.unhexlify(s).decode(CODEC)
 
 
 def hx(s):
-    return binascii.hexlify(s.encode("latin-1")).decode("ascii")
+    # a character the codec cannot encode can only come from a wrong escape: keep the run going and make it visible
+    return binascii.hexlify(s.encode(CODEC, "backslashreplace")).decode("ascii")
 
 
 for line in sys.stdin:
@@ -45,6 +56,7 @@ for line in sys.stdin:
     if not line:
         continue
     c = json.loads(line)
+    CODEC = "utf-8" if c.get("utf8") else "latin-1"
     res = {"segs": [], "norm": None, "esc": [], "exc": ""}
     data_locators = []
     off = 0
